@@ -26,6 +26,7 @@ class Tree:
         self.files = {}  # relpath -> content
         self.pyfiles = []  # relpaths of python files
         self.short_pkg = None  # a package whose files import each other by its short name (src layout)
+        self.fav_externals = []
 
     def children(self, d):
         pre = d + "/"
@@ -131,6 +132,7 @@ def variant_tree(rng, tree, tname):
     t.files = dict(tree.files)
     t.pyfiles = list(tree.pyfiles)
     t.short_pkg = tree.short_pkg
+    t.fav_externals = list(tree.fav_externals)
     plain = [f for f in t.pyfiles if not f.endswith("__init__.py") and "__pycache__" not in f]
     rng.shuffle(plain)
     for f in plain[: rng.randint(1, max(1, len(plain) // 3))]:
@@ -175,6 +177,8 @@ def _gen_imports(rng, tree, pkg_bias=0.0):
                  if "__pycache__" not in f and not f.endswith("__init__.py")]
     density = rng.choice([0.5, 1.0, 1.5, 2.5])
     ext_rate = rng.choice([0.0, 0.15, 0.3, 0.4])
+    fav = rng.sample(EXTERNALS, rng.randint(2, 4))  # a project leans on a few libraries, again and again
+    tree.fav_externals = fav
     for f in tree.pyfiles:
         if "__pycache__" in f:
             continue
@@ -184,7 +188,7 @@ def _gen_imports(rng, tree, pkg_bias=0.0):
         n = int(rng.random() * density * 2 + 0.5)
         for _ in range(n):
             if rng.random() < ext_rate:
-                ext = pick(rng, EXTERNALS)
+                ext = pick(rng, fav if rng.random() < 0.7 else EXTERNALS)
                 r = rng.random()
                 if r < 0.5:
                     stmt = f"import {ext}"
@@ -266,7 +270,7 @@ def _excluded(rel, patterns):
     return False
 
 
-def gen_cfg(rng, tree, plain=False):
+def gen_cfg(rng, tree, plain=False, ext_bias=False):
     """Returns (cfg dict for the plan, predicted module list)."""
     sub = [d for d in tree.pkg_depth if d != tree.root]
     module = tree.root
@@ -317,10 +321,18 @@ def gen_cfg(rng, tree, plain=False):
         if r < 0.35:
             kw["level_limit"] = rng.choice([1, 1, 2, 2, 3])
         r = rng.random()
-        if r < 0.3:
+        if r < (0.5 if ext_bias else 0.3):
             kw["exclude_external_libraries"] = False
-            r2 = rng.random()
-            if r2 < 0.3:
+            r2 = rng.random() * (0.6 if ext_bias else 1.0)
+            if ext_bias and tree.fav_externals and rng.random() < 0.5:
+                # exclude exactly the top-level package of a library the project really imports
+                tops = sorted({e.split(".")[0] for e in tree.fav_externals})
+                chosen = rng.sample(tops, min(len(tops), rng.randint(1, 2)))
+                if rng.random() < 0.5:
+                    kw["external_exclusions"] = sorted(chosen)
+                else:
+                    kw["regex_external_exclusions"] = sorted(c + "$" for c in chosen)
+            elif r2 < 0.3:
                 kw["external_exclusions"] = sorted(rng.sample(["os*", "numpy", "*parse", "typing", "json", "os", "sys"], rng.randint(2, 3)))
             elif r2 < 0.6:
                 kw["regex_external_exclusions"] = sorted(rng.sample(["os.*", "numpy$", ".*abc", "typing$", "json$", "os$"], rng.randint(2, 3)))
